@@ -275,22 +275,30 @@ def parseJsonFirst (data : Bytes) : Option Json :=
 
 /-- Does the literal overflow float64 (ParseFloat returns ±Inf with a range error)? Exact comparison
 with the rounding threshold 2^1024 − 2^970 for moderate exponents, magnitude shortcut otherwise. -/
-def numOverflowsFloat64 (raw : String) : Bool :=
-  let cs := raw.toList
-  let cs := match cs with | '-' :: r => r | r => r
+def stripMinus : List Char → List Char
+  | '-' :: r => r
+  | r => r
+
+/-- The exponent part of a literal after mantissa and fraction. -/
+def expoOf : List Char → Int
+  | c :: r => if c == 'e' || c == 'E' then
+      (match r with
+       | '-' :: ds => - Int.ofNat (decVal ds)
+       | '+' :: ds => Int.ofNat (decVal ds)
+       | ds => Int.ofNat (decVal ds))
+    else 0
+  | [] => 0
+
+/-- Fraction digits and what follows them. -/
+def fracOf : List Char → List Char × List Char
+  | '.' :: r => (r.takeWhile isDigit, r.dropWhile isDigit)
+  | r => ([], r)
+
+def numOverflowsAbs (cs : List Char) : Bool :=
   let intPart := cs.takeWhile isDigit
   let rest := cs.dropWhile isDigit
-  let (fracPart, rest) := match rest with
-    | '.' :: r => (r.takeWhile isDigit, r.dropWhile isDigit)
-    | r => ([], r)
-  let expo : Int := match rest with
-    | c :: r => if c == 'e' || c == 'E' then
-        (match r with
-         | '-' :: ds => - Int.ofNat (decVal ds)
-         | '+' :: ds => Int.ofNat (decVal ds)
-         | ds => Int.ofNat (decVal ds))
-      else 0
-    | [] => 0
+  let fracPart := (fracOf rest).1
+  let expo : Int := expoOf (fracOf rest).2
   let mant := decVal (intPart ++ fracPart)
   if mant == 0 then false else
   let e10 : Int := expo - Int.ofNat fracPart.length
@@ -303,6 +311,8 @@ def numOverflowsFloat64 (raw : String) : Bool :=
     let threshold : Nat := 2 ^ 1024 - 2 ^ 970
     if e10 ≥ 0 then mant * 10 ^ e10.toNat ≥ threshold
     else mant ≥ threshold * 10 ^ (-e10).toNat
+
+def numOverflowsFloat64 (raw : String) : Bool := numOverflowsAbs (stripMinus raw.toList)
 
 mutual
 def Json.anyNum (p : String → Bool) : Json → Bool
